@@ -1,17 +1,17 @@
-\* Documentation only (not run by the check): the bridge AS FOUND against the strict clauses.
-\* TLC reports NoSpontaneousEnd violated: Send(S, Bm1) under lim = "tiny", Attach, Read(s2t),
-\* Limit(s2t) = DevLimiterError -> the chunk is dropped and the copier ends with both ends open.
+\* Documentation only (not run by the check): the copy loop's retry test looking at Timeout() only, against
+\* NoBusyLoop.  TLC reports: Attach, ErrorEnd(e, "plain", "tmo") with the other end idle - the Read that learns of
+\* the failure is retried, and so is the next one: the copier spins on the dead connection.
 CONSTANTS
   BUF = 3
   MaxSends = 1
   MaxSlow = 5
-  Lims = {"tiny"}
-  Classes = {"one", "Bm1", "B", "Bp1", "big"}
-  Faults = FALSE
+  Lims = {"none"}
+  Classes = {"one"}
+  Faults = TRUE
   Replace = FALSE
   ExtCloseOn = FALSE
   DevLimiter = TRUE
-  DevNilFwd = TRUE
+  DevNilFwd = FALSE
   DevStaleSrc = TRUE
   DevSleepLimiter = FALSE
   DevWriteLock = FALSE
@@ -21,9 +21,9 @@ CONSTANTS
   DevIdleSweep = FALSE
   DevFwdNoEof = FALSE
   SrcKinds = {"direct"}
-  ErrClasses = {"plain"}
+  ErrClasses = {"plain", "tmo", "tmp"}
   PollOn = FALSE
-  RetryOn = {}
+  RetryOn = {"tmo"}
   RetryWriteOn = {}
   DevBufio = FALSE
   AttachKinds = {"local"}
@@ -33,5 +33,5 @@ CONSTANTS
 INIT Init
 NEXT Next
 VIEW view
-INVARIANTS TypeOK Prefix InOrder NoSpontaneousEnd Complete
+INVARIANTS TypeOK NoBusyLoop
 CHECK_DEADLOCK FALSE
